@@ -10,12 +10,12 @@ variable {α : Type}
 
 /-- all stored entries whose position satisfies `p row col` are zero -/
 def ZeroWhere [OfNat α 0] (M : Csc α) (p : Nat → Nat → Prop) : Prop :=
-  ∀ e ∈ M.entries, p e.1 e.2.1 → e.2.2 = 0
+  ∀ e ∈ M.storedEntries, p e.1 e.2.1 → e.2.2 = 0
 
 theorem mem_entries_mapEntries (M : Csc α) (f : Nat → Nat → α → α) (e : Nat × Nat × α)
-    (he : e ∈ (M.mapEntries f).entries) :
-    ∃ v, (e.1, e.2.1, v) ∈ M.entries ∧ e.2.2 = f e.1 e.2.1 v := by
-  unfold Csc.entries at he ⊢
+    (he : e ∈ (M.mapEntries f).storedEntries) :
+    ∃ v, (e.1, e.2.1, v) ∈ M.storedEntries ∧ e.2.2 = f e.1 e.2.1 v := by
+  unfold Csc.storedEntries at he ⊢
   obtain ⟨t, ht⟩ := List.mem_iff_getElem?.mp he
   rw [List.getElem?_zip_eq_some, List.getElem?_zip_eq_some] at ht
   obtain ⟨h1, h2, h3⟩ := ht
